@@ -19,7 +19,7 @@ From Soy Require Import Proofs.SourceTieChecker Proofs.SourceTieChildren.
 From Soy Require Import Model.Bytes Model.Num Model.Values Model.Outcome Model.Ast Model.Interp Model.RefView Model.Checker
   Spec.Wf Proofs.CheckerProofs Proofs.CheckerInterpProofs.
 From Coq Require Import Permutation.
-From Soy Require Import Model.Compile Proofs.CheckerCompileTie.
+From Soy Require Import Model.Compile Proofs.CheckerCompileTie Proofs.CheckerAddTie.
 From Soy Require Import Model.CheckerRun Proofs.CheckerExcuseProofs Proofs.CheckerExcuseRel.
 Open Scope N_scope.
 
@@ -62,6 +62,17 @@ Theorem C07_checker_models_agree : forall ko0 reg,
   = check_registry reg.
 Proof. exact check_data_refs_models_agree. Qed.
 Print Assumptions C07_checker_models_agree.
+
+(* The same for the whole of compile_check: Model/Compile.v has a second model of Registry.Add too (registry_add, with
+   the source/file maps and the processed bodies); on parsed files the two build the same template list and fail for
+   the same class of reason, so C07's compile_check is the Add + CheckDataRefs part of C13's compile_gen. *)
+Theorem C07_compile_models_agree : forall ko0 fs,
+  (forall ks, Permutation (ko0 ks) ks) ->
+  files_shaped fs = true ->
+  (forall ts, add_files [] fs = AddOk ts -> registry_maps_sorted (registry_of ts fs) = true) ->
+  compile_check_c13 ko0 fs = compile_check fs.
+Proof. exact compile_check_models_agree. Qed.
+Print Assumptions C07_compile_models_agree.
 
 (* the form the harness evaluates on every compiled registry (both verdicts, and the hypothesis) *)
 Theorem C07_checker_models_agree_run : forall reg,
